@@ -13,6 +13,7 @@ import json
 import os
 import shutil
 import subprocess
+import sys
 
 import common
 import hq_model
@@ -34,7 +35,7 @@ PROFILES = {
 }
 
 # behaviours simulated by TLC from the model and replayed on the real code: tier -> (behaviours per instance, depth)
-SIM_BUDGET = {"quick": (120, 70), "thorough": (1500, 90)}
+SIM_BUDGET = {"quick": (0, 70), "thorough": (1500, 90)}   # quick: the committed corpus only
 
 # invariants / step properties of the model that belong to each property (all are checked in every MC run)
 def mc_formulas(pid):
@@ -48,8 +49,9 @@ def sim_shard(args):
     """behaviours of the model replayed on the real code: the committed corpus (regress/model: behaviours that together cover
     every abstract step signature of the model several times) plus freshly simulated ones"""
     workdir, name, num, depth, seed = args
-    behs = hq_model.corpus_behaviours(name) + hq_model.behaviours(name, num, depth, seed, workdir)
-    return hq_model.guided_shard(workdir, name, behs)
+    behs = hq_model.corpus_behaviours(name) + (hq_model.behaviours(name, num, depth, seed, workdir) if num > 0 else [])
+    # chunks of 150 behaviours so that the validation of the shards balances over the TLC processes
+    return [hq_model.guided_shard(workdir, name, behs[k:k + 150], tag=f"sim{k // 150}") for k in range(0, len(behs), 150)]
 
 
 BUDGET = {
@@ -187,7 +189,11 @@ def run(pid, tier, seed):
 
 
 def run_inner(pid, tier, seed):
+    import time
+    t0 = time.time()
+    dbg = (lambda what: print(f"[{time.time() - t0:6.1f}s] {what}", file=sys.stderr)) if os.environ.get("VERIF_DEBUG") else (lambda what: None)
     common.build_harness()
+    dbg("harness built")
     work = common.scratch()
     try:
         runs, nshards, steps = BUDGET[tier]
@@ -200,7 +206,8 @@ def run_inner(pid, tier, seed):
         with cf.ThreadPoolExecutor(max_workers=max(2, common.NCPU - 2)) as ex:
             sim_f = [ex.submit(sim_shard, j) for j in sim_jobs]
             shards = list(ex.map(gen_shard, jobs))
-            sims = [f.result() for f in sim_f]
+            sims = [sh for f in sim_f for sh in f.result()]
+        dbg("walks + simulations + guided replays done")
         n_walk_runs = sum(s[2]["runs"] for s in shards)
         shards += sims
         # exhaustive model checking of the design (independent of /repo; cached by the hash of the specification)
@@ -208,11 +215,13 @@ def run_inner(pid, tier, seed):
         bad = [(r["cfg"], r["violated"]) for r in mc if r["violated"]]
         if bad:
             raise common.ToolError(f"the model itself violates {bad}: the specification needs attention (not a verdict about the code)")
+        dbg("model checking done")
         reg = regress_shard(work)
         if reg:
             shards.append(reg)
         with cf.ThreadPoolExecutor(max_workers=max(2, common.NCPU // 2)) as ex:
             results = list(ex.map(validate_shard, [(work, s[0]) for s in shards]))
+        dbg("trace validation done")
         violations, others = analyse(pid, shards, results)
         total_runs = sum(s[2]["runs"] for s in shards)
         total_lines = sum(s[2]["steps"] for s in shards)
